@@ -11,63 +11,270 @@ CRATES_THOROUGH = None
 T = "dmntk_feel::temporal::"
 
 
+def contains_time_ctor(v, depth=0):
+    """does an abstract value contain a constructed FeelTime (5 fields)"""
+    if depth > 8 or not isinstance(v, (tuple, list)):
+        return False
+    if isinstance(v, tuple) and len(v) == 3 and v[0] == "v" and v[1] in ("Self", "FeelTime") and isinstance(v[2], list) and len(v[2]) == 5:
+        return True
+    return any(contains_time_ctor(x, depth + 1) for x in v if isinstance(x, (tuple, list)))
+
+
 def run(F, rep, tier):
     rep.explanation = ("Reading and printing temporal literals for all texts is value-level (regular expressions, chrono) and is not decided. Decided are the finite gates "
-                       "the clauses name: hour < 24, minute < 60, second < 60 for every time of day that is constructed from parts; offset hours above 14 are rejected; "
-                       "an offset's sign applies to the whole hh:mm:ss amount when read, and minutes / seconds are printed from the magnitude (so the text of a negative "
-                       "offset is itself a valid literal); durations are normalised with the correct unit constants (P1DT12H for PT36H, P1Y2M for P14M).")
+                       "the clauses name, by folding the functions of the pinned tree over abstract operands (one representative per cell cut out by the constants they compare "
+                       "with; symbolic hours / minutes / seconds for offsets): is_valid_time is exactly hour < 24, minute < 60, second < 60, and no function that consults it "
+                       "builds a time of day when it answered false; offset hours above 14 are rejected; an offset's sign applies to the whole hh:mm:ss amount when read, and "
+                       "minutes / seconds are printed from the magnitude; durations are normalised with the correct unit constants (P1DT12H for PT36H, P1Y2M for P14M). "
+                       "A function rewritten into a form the folding cannot follow is reported as UNDECIDED, not as a violation.")
     rep.assumptions += ["the regular expressions of the literals", "chrono's and chrono-tz's calendars and zone data", "fraction-of-second conversion"]
-    r1 = rep.rule("R14.1", "is_valid_time admits exactly hour < 24, minute < 60, second < 60, and every constructor of a time of day from parts passes through it")
-    r2 = rep.rule("R14.2", "UTC offsets with more than 14 hours are rejected when read")
-    vt = F.hir.get(T + "is_valid_time")
-    if vt is None:
-        rep.missing_anchor(r1, T + "is_valid_time")
-    else:
-        params = [p.get("name") for p in vt.get("params", [])]
-        got = c15.canon(vt["body"], params).replace(" ", "")
-        conj = sorted(re.findall(r"\(p\d<\d+\)", got))
-        if conj == ["(p0<24)", "(p1<60)", "(p2<60)"] and got.count("&&") == 2 and "||" not in got:
-            rep.ok(r1, "bounds", "hour < 24 && minute < 60 && second < 60")
+    r1 = rep.rule("R14.1", "is_valid_time folds to hour < 24 && minute < 60 && second < 60 on every cell, and no caller builds a FeelTime on a path where it answered false")
+    vts = c15.fns_named(F, "is_valid_time")
+    if not vts:
+        rep.missing_anchor(r1, "a function is_valid_time in dmntk_feel")
+    for vt in vts:
+        h = F.hir[vt]
+        params = [p.get("name") for p in h.get("params", [])]
+        if len(params) != 3 or not all(c15.compared_only(F, h, p) for p in params):
+            rep.undecided(r1, "bounds", "%s uses its parameters other than in comparisons with constants" % vt)
+            continue
+        reps = (0, 1, 22, 23, 24, 25, 58, 59, 60, 61, 254, 255)
+        probs, und = [], 0
+        for hh in reps:
+            for mm in reps:
+                for ss in reps:
+                    outs, _ = c15.fold(F, vt, [("lit", hh), ("lit", mm), ("lit", ss)])
+                    got = c15.single(outs)
+                    want = hh < 24 and mm < 60 and ss < 60
+                    if got is None or got[0] != "bool":
+                        und += 1
+                    elif got[1] != want and len(probs) < 3:
+                        probs.append("%02d:%02d:%02d is %s" % (hh, mm, ss, "accepted" if got[1] else "rejected"))
+        if probs:
+            rep.violation(r1, "bounds", "%s: %s; a time of day requires hour < 24, minute < 60 and second < 60" % (vt, "; ".join(probs)), "%s:%s" % (h["file"], h["line"]))
+        elif und:
+            rep.undecided(r1, "bounds", "%s does not fold to a boolean on %d representative(s)" % (vt, und))
         else:
-            rep.violation(r1, "bounds", "is_valid_time computes %s; a time of day requires hour < 24, minute < 60 and second < 60" % got, "%s:%s" % (vt["file"], vt["line"]))
-        # gates: the Option-returning constructors from parts and the text parsers call it
-        users = sorted(n for n, h in F.hir.items() if n.startswith(T) and n != T + "is_valid_time" and
-                       find_hir(h["body"], lambda x: x.get("k") == "Call" and x.get("callee") == T + "is_valid_time"))
-        rep.floor(r1, "constructors / parsers gated by is_valid_time", len(users), 3)
-        for u in users:
-            h = F.hir[u]
-            # the construction of the time (FeelTime(..) / Self(..) with 5 fields) must be inside the branch taken when the test holds
-            ok = True
-            for i, _ in find_hir(h["body"], lambda x: x.get("k") == "If" and find_hir(x["c"], lambda y: y.get("k") == "Call" and y.get("callee") == T + "is_valid_time")):
-                neg = strip(i["c"]).get("k") == "Unary" and strip(i["c"]).get("op") == "!"
-                branch = i.get("else") if neg else i["then"]
-                other = i["then"] if neg else i.get("else")
-                ctor = lambda b: bool(b) and bool(find_hir(b, lambda y: y.get("k") == "Call" and "Ctor" in (y.get("dk") or "") and (y.get("callee") or "").endswith(("FeelTime", "::Self")) and len(y.get("args", [])) == 5))
-                if other is not None and ctor(other) and not ctor(branch):
-                    ok = False
-            if ok:
-                rep.ok(r1, "gate:%s" % u[len(T):], "time built under is_valid_time")
-            else:
-                rep.violation(r1, "gate:%s" % u[len(T):], "%s builds the time on the branch where is_valid_time failed" % u, "%s:%s" % (h["file"], h["line"]))
-    fz = F.hir.get(T + "zone::FeelZone::from_captures")
-    if fz is None:
-        rep.missing_anchor(r2, T + "zone::FeelZone::from_captures")
-    else:
-        lims = []
-        for i, _ in find_hir(fz["body"], lambda x: x.get("k") == "If"):
-            c = strip(i["c"])
-            if c.get("k") == "Binary" and c.get("op") in (">", ">=", "<", "<=") and "hours" in (strip(c["a"]).get("name") or "") + (strip(c["b"]).get("name") or ""):
-                a, b, op = strip(c["a"]), strip(c["b"]), c["op"]
-                k = b.get("v") if b.get("k") == "Lit" else a.get("v")
-                # normalise to "hours > k rejects"
-                rejects_none = bool(find_hir(i["then"], lambda y: y.get("k") == "Ret" and "None" in repr(y)))
-                if a.get("name") and op == ">" and rejects_none:
-                    lims.append(k)
-                elif a.get("name") and op == ">=" and rejects_none:
-                    lims.append(k - 1)
-        if lims == [14]:
-            rep.ok(r2, "offset-hours", "hours > 14 -> no zone")
+            rep.ok(r1, "bounds", "%d cells folded: hour < 24 && minute < 60 && second < 60" % len(reps) ** 3)
+    # gates: every function that consults is_valid_time must not build a time of day when the answer is false
+    users = sorted(n for n, h in F.hir.items() if n.startswith(("dmntk_feel::", "<dmntk_feel::")) and "::{closure" not in n and n not in vts and
+                   find_hir(h["body"], lambda x: x.get("k") == "Call" and (x.get("callee") or "") in vts))
+    rep.floor(r1, "constructors / parsers gated by is_valid_time", len(users), 3)
+    for u in users:
+        h = F.hir[u]
+
+        def hook(callee, args, s):
+            if callee in vts:
+                return ("bool", False)
+            return None
+        outs, _ = c15.fold(F, u, [("sym", p.get("name") or "p%d" % i) for i, p in enumerate(h.get("params", []))], hook)
+        key = "gate:%s" % u.split("dmntk_feel::")[-1]
+        if outs is None:
+            rep.undecided(r1, key, "%s has too many paths to fold" % u)
+        elif any(contains_time_ctor(v) for _, v in outs):
+            rep.violation(r1, key, "%s builds a time of day on a path where is_valid_time answered false" % u, "%s:%s" % (h["file"], h["line"]))
         else:
-            rep.violation(r2, "offset-hours", "the hour limit of UTC offsets is %s (expected: offsets with more than 14 hours are rejected)" % (lims or "not found"), "%s:%s" % (fz["file"], fz["line"]))
+            rep.ok(r1, key, "%d path(s) folded with is_valid_time = false: none builds a FeelTime" % len(outs))
     c15.offset_rule(F, rep)
     c15.unit_constants_rule(F, rep)
+    duration_literal_rule(F, rep)
+    duration_text_rule(F, rep)
+
+
+# ======================================================================================================
+# R14.3: the value of a duration literal is the signed weighted sum of its components
+NS = 10 ** 9
+DURATIONS = {
+    # type name -> (component group -> weight, sign group)
+    "FeelDaysAndTimeDuration": ({"days": 86400 * NS, "hours": 3600 * NS, "minutes": 60 * NS, "seconds": NS, "fractional": NS}, "sign"),
+    "FeelYearsAndMonthsDuration": ({"years": 12, "months": 1}, "sign"),
+}
+
+
+def duration_literal_rule(F, rep):
+    rid = rep.rule("R14.3", "a duration literal denotes sign * (sum of component * unit) over the components present, the sign applying to the whole sum (try_from(&str) folded with symbolic components)")
+    some = lambda x: ("v", "Some", [x])
+    none = ("v", "None", [])
+    n = 0
+    for tname, (weights, sign_group) in sorted(DURATIONS.items()):
+        cands = [k for k in F.hir if k.startswith("<dmntk_feel::temporal::") and ("::%s as core::convert::TryFrom<&" % tname) in k and k.endswith("::try_from") and "str" in k]
+        if not cands:
+            rep.missing_anchor(rid, "TryFrom<&str> for %s" % tname)
+            continue
+        name = cands[0]
+        h = F.hir[name]
+        n += 1
+
+        def hook(callee, args, st):
+            c = callee or ""
+            last = c.split("::")[-1]
+            if last == "captures" and "Regex" in c:
+                return some(("sym", "captures"))
+            if last == "name" and "Captures" in c and len(args) == 2 and args[1][0] == "lit":
+                g = args[1][1]
+                return [(("group", g, True), some(("sym", "m:" + g))), (("group", g, False), none)]
+            if last == "parse" and args and args[0][0] == "sym" and args[0][1].startswith("m:"):
+                return ("v", "Ok", [("sym", args[0][1][2:])])
+            if last in ("trunc", "round", "floor") and args:
+                return args[0]           # the fraction scaled to nanoseconds; rounding of the product is not modelled
+            if last == "try_from" and "TryFrom" in c and len(args) == 1 and args[0][0] in ("lin", "sym", "lit"):
+                return ("v", "Ok", [args[0]])      # the representable case
+            return None
+        outs, ev = c15.fold(F, name, [("sym", "value")], hook)
+        key = "literal:%s" % tname
+        if outs is None:
+            rep.undecided(rid, key, "%s has too many paths to fold" % name)
+            continue
+        probs, seen, und = [], 0, 0
+        for conds, v in outs:
+            if not (v[0] == "v" and v[1] == "Ok" and v[2] and v[2][0][0] == "v" and v[2][0][1] in (tname, "Self") and v[2][0][2]):
+                continue
+            lin = ev.as_lin(v[2][0][2][0])
+            if lin is None:
+                und += 1
+                continue
+            seen += 1
+            present = {}
+            for c in conds:
+                if c[0] == "group":
+                    present[c[1]] = c[2]
+            sg = -1 if present.get(sign_group) else 1
+            want = {g: sg * w for g, w in weights.items() if present.get(g)}
+            if lin[0] != want or lin[1] != 0:
+                got = " + ".join("%d*%s" % (c, g) for g, c in sorted(lin[0].items())) or "0"
+                exp = " + ".join("%d*%s" % (c, g) for g, c in sorted(want.items())) or "0"
+                probs.append("with %s%s present the value is %s, expected %s" % ("sign, " if sg < 0 else "", ", ".join(sorted(want)), got, exp))
+        if probs:
+            rep.violation(rid, key, "%s: %s" % (name, "; ".join(sorted(set(probs))[:3])), "%s:%s" % (h["file"], h["line"]))
+        elif und or not seen:
+            rep.undecided(rid, key, "%s: %s" % (name, "the value does not fold to a linear form of the components on %d path(s)" % und if und else "no path returning Ok(%s(..)) was folded" % tname))
+        else:
+            rep.ok(rid, key, "%d returning paths: sign * sum(component * unit)" % seen)
+    return n
+
+
+# ======================================================================================================
+# R14.4: the text form of a duration: every arm of the component-presence table prints the sign and exactly the present components, in order
+def decode_template(v):
+    """format_args template of this toolchain: ByteStr([...]) -> list of 'ARG' / literal text; None when not decodable"""
+    import re as _re
+    m = _re.match(r"^ByteStr\(\[([0-9, ]*)\]", str(v))
+    if not m:
+        return None
+    bs = [int(x) for x in m.group(1).split(",") if x.strip()]
+    out, i = [], 0
+    while i < len(bs):
+        b = bs[i]
+        if b == 0:
+            break
+        if b == 192:
+            out.append("ARG")
+            i += 1
+        elif b < 128:
+            out.append(bytes(bs[i + 1:i + 1 + b]).decode("utf-8", "replace"))
+            i += 1 + b
+        else:
+            return None
+    return out
+
+
+def duration_text_rule(F, rep):
+    rid = rep.rule("R14.4", "text form of durations: every arm of the presence table prints the sign first and exactly the components whose presence flag is true, in calendar order with their unit letters (P nD T nH nM n.fS)")
+    SPEC = {"FeelDaysAndTimeDuration": ["D", "H", "M", "S", "f"], "FeelYearsAndMonthsDuration": ["Y", "M"]}
+    for tname, units in sorted(SPEC.items()):
+        cands = [k for k in F.hir if k.startswith("<dmntk_feel::temporal::") and ("::%s as core::fmt::Display>::fmt" % tname) in k and "{closure" not in k]
+        key = "text:%s" % tname
+        if not cands:
+            rep.missing_anchor(rid, "Display for %s" % tname)
+            continue
+        h = F.hir[cands[0]]
+        tables = [m for m, _ in find_hir(h["body"], lambda x: x.get("k") == "Match" and x.get("src") == "Normal" and strip(x["e"]).get("k") == "Tup" and len(strip(x["e"])["es"]) == len(units))]
+        if len(tables) != 1:
+            rep.undecided(rid, key, "Display for %s is not a match over a tuple of %d presence flags" % (tname, len(units)))
+            continue
+        m = tables[0]
+        # the local tested by each flag `x > 0`
+        flag_locals = []
+        for e in strip(m["e"])["es"]:
+            e = strip(e)
+            a = strip(e.get("a", {}))
+            flag_locals.append(a.get("name") if e.get("k") == "Binary" and e.get("op") in (">", "!=") and a.get("res") == "local" else None)
+        if None in flag_locals:
+            rep.undecided(rid, key, "presence flags of %s are not of the form `component > 0`" % tname)
+            continue
+        probs, narms, und = [], 0, 0
+        for arm in m["arms"]:
+            ps = arm["p"].get("ps") if arm["p"].get("k") == "Tuple" else None
+            if not ps or not all(q.get("k") == "Lit" and q.get("lit") == "bool" for q in ps):
+                und += 1
+                continue
+            flags = [q["v"] for q in ps]
+            tm = [x for x, _ in find_hir(arm["b"], lambda x: x.get("k") == "Lit" and x.get("lit") == "other" and str(x.get("v", "")).startswith("ByteStr("))]
+            tpl = decode_template(tm[0]["v"]) if len(tm) == 1 else None
+            argt = [x for x, _ in find_hir(arm["b"], lambda x: x.get("k") == "LetStmt" and x.get("p", {}).get("name") == "args" and strip(x.get("e", {})).get("k") == "Tup")]
+            args = [local_of(e) for e in strip(argt[0]["e"])["es"]] if argt else []
+            if tm and not argt:
+                args = []
+            if not tm:
+                # no placeholders: the template is a plain string literal
+                lits = [x["v"] for x, _ in find_hir(arm["b"], lambda x: x.get("k") == "Lit" and x.get("lit") == "str")]
+                tpl = [lits[0]] if len(lits) == 1 else None
+            if tpl is None:
+                und += 1
+                continue
+            narms += 1
+            text = "".join("{}" if t == "ARG" else t for t in tpl)
+            if not any(flags):
+                if "{}" in text or not text.startswith("P"):
+                    probs.append("the zero duration prints as %r" % text)
+                continue
+            # expected template
+            exp, exp_args = "{}P", ["<sign>"]
+            if tname == "FeelYearsAndMonthsDuration":
+                for f, u, l in zip(flags, units, flag_locals):
+                    if f:
+                        exp += "{}" + u
+                        exp_args.append(l)
+            else:
+                d, hh, mm, ss, nn = flags
+                if d:
+                    exp += "{}D"
+                    exp_args.append(flag_locals[0])
+                if hh or mm or ss or nn:
+                    exp += "T"
+                if hh:
+                    exp += "{}H"
+                    exp_args.append(flag_locals[1])
+                if mm:
+                    exp += "{}M"
+                    exp_args.append(flag_locals[2])
+                if ss and nn:
+                    exp += "{}.{}S"
+                    exp_args += [flag_locals[3], None]
+                elif ss:
+                    exp += "{}S"
+                    exp_args.append(flag_locals[3])
+                elif nn:
+                    exp += "0.{}S"
+                    exp_args.append(None)
+            if text != exp:
+                probs.append("the arm %s prints %r, expected %r" % (tuple(flags), text, exp))
+            elif len(args) == len(exp_args):
+                for i, (a, w) in enumerate(zip(args, exp_args)):
+                    if w is not None and w != "<sign>" and a != w:
+                        probs.append("the arm %s prints `%s` where the component `%s` belongs" % (tuple(flags), a, w))
+                    if w == "<sign>" and a in flag_locals:
+                        probs.append("the arm %s prints the component `%s` in the position of the sign" % (tuple(flags), a))
+        if probs:
+            rep.violation(rid, key, "Display for %s: %s" % (tname, "; ".join(probs[:3])), "%s:%s" % (h["file"], h["line"]))
+        elif und or narms < 2 ** len(units):
+            rep.undecided(rid, key, "Display for %s: %d of %d arms decoded" % (tname, narms, 2 ** len(units)))
+        else:
+            rep.ok(rid, key, "%d arms agree with the generated templates" % narms)
+
+
+def local_of(e):
+    e = strip(e)
+    while e.get("k") in ("AddrOf", "Cast") or (e.get("k") == "Unary" and e.get("op") == "*"):
+        e = strip(e.get("e") or e.get("a"))
+    return e.get("name") if e.get("k") == "Path" and e.get("res") == "local" else None
